@@ -32,3 +32,14 @@ Definition simops_data_eqb (a b : simops_data) : bool :=
 
 Definition simops_case (c : netlist) (caps : list N) (cmin : N) (reuse strip : bool) (exp : option simops_data) : bool :=
   opt_eqb simops_data_eqb (option_map simops_view (build c caps cmin reuse strip)) exp.
+
+(** WaveSim results as plain data *)
+From KV Require Import Model.Time Model.WaveEval Model.WaveSimModel.
+Definition capt_eqb (a b : bool * time * time * bool * bool * bool) : bool :=
+  let '(i1, e1, l1, f1, v1, o1) := a in let '(i2, e2, l2, f2, v2, o2) := b in
+  Bool.eqb i1 i2 && teqb e1 e2 && teqb l1 l2 && Bool.eqb f1 f2 && Bool.eqb v1 v2 && Bool.eqb o1 o2.
+Definition wsim_eqb (r : wsim_result) (exp : list time * list Z * list (option (bool * time * time * bool * bool * bool))) : bool :=
+  let '(m, ab, cp) := exp in
+  list_eqb teqb (w_mem r) m && list_eqb Z.eqb (w_abuf r) ab && list_eqb (opt_eqb capt_eqb) (w_capt r) cp.
+Definition wsim_ok (r : option wsim_result) exp : bool :=
+  match r, exp with Some x, Some e => wsim_eqb x e | None, None => true | _, _ => false end.
